@@ -345,7 +345,7 @@ func (p *Prog) verifyFunction(fn *ssa.Function, spec *FuncSpec) *FuncResult {
 			}
 		}
 		// locks must not be held at return (unless declared held on entry)
-		for id := range vc.held {
+		for id := range vc.st.held {
 			if !strings.HasSuffix(id, "#r") && !vc.heldOnEntry[id] {
 				vc.oblige("lock", "released", "false", pos, "lock still held at return")
 			}
@@ -378,7 +378,7 @@ func (vc *VC) enterHeld(fr *Frame, path string, env *Env) {
 			vc.assume(t)
 		}
 	}
-	vc.held[id] = true
+	vc.st.held[id] = true
 	if vc.heldOnEntry == nil {
 		vc.heldOnEntry = map[string]bool{}
 	}
